@@ -36,6 +36,63 @@ func (c *Ctx) phiLeaves(v ssa.Value, acc []Lit, depth int) []phiLeaf {
 	return out
 }
 
+// pairCase: one way the pair (S, E) is chosen, with the conditions of that way and the calling context (helpers
+// entered) in which S, E and the conditions have to be read.
+type pairCase struct {
+	S, E   ssa.Value
+	Guards []Lit
+	Pins   pinMap
+}
+
+// pairCases splits two values that are selected together - two phis of one block, or two results of one call of a
+// product helper - into their alternatives.
+func (c *Ctx) pairCases(s, e ssa.Value, acc []Lit, pins pinMap, depth int) []pairCase {
+	P := c.P
+	leaf := []pairCase{{s, e, dedupLits(acc), pins}}
+	if depth > 5 {
+		return leaf
+	}
+	sp, sok := s.(*ssa.Phi)
+	ep, eok := e.(*ssa.Phi)
+	if sok && eok && sp.Block() == ep.Block() {
+		var out []pairCase
+		for i := range ep.Edges {
+			var g []Lit
+			P.PinnedAll(pins, func() { g = P.EdgeGuards(ep.Block().Preds[i], ep.Block()) })
+			out = append(out, c.pairCases(sp.Edges[i], ep.Edges[i], append(append([]Lit{}, acc...), g...), pins, depth+1)...)
+		}
+		return out
+	}
+	sx, sok2 := s.(*ssa.Extract)
+	ex, eok2 := e.(*ssa.Extract)
+	if sok2 && eok2 && sx.Tuple == ex.Tuple {
+		if call, ok := sx.Tuple.(*ssa.Call); ok {
+			callee := call.Call.StaticCallee()
+			if callee != nil && P.IsProductFunc(callee) && len(callee.Blocks) > 0 && !P.isAnchor(callee) && pins[callee] == nil {
+				np := pinMap{}
+				for f, cs := range pins {
+					np[f] = cs
+				}
+				np[callee] = call
+				var out []pairCase
+				allInstrs(callee, func(b *ssa.BasicBlock, ins ssa.Instruction) {
+					r, ok := ins.(*ssa.Return)
+					if !ok || sx.Index >= len(r.Results) || ex.Index >= len(r.Results) {
+						return
+					}
+					var g []Lit
+					P.PinnedAll(np, func() { g = P.BlockGuards(b) })
+					out = append(out, c.pairCases(r.Results[sx.Index], r.Results[ex.Index], append(append([]Lit{}, acc...), g...), np, depth+1)...)
+				})
+				if len(out) > 0 {
+					return out
+				}
+			}
+		}
+	}
+	return leaf
+}
+
 func hasLit(ls []Lit, pred func(Lit) bool) bool {
 	for _, l := range ls {
 		if pred(l) {
@@ -128,44 +185,45 @@ func (c *Ctx) ruleIgnoreScope() {
 		return l.Kind == "eq" && ((isZeroPos(l.X) && nextCallOf(l.Y) != nil) || (isZeroPos(l.Y) && nextCallOf(l.X) != nil))
 	}
 
-	sp, sok := startV.(*ssa.Phi)
-	ep, eok := endV.(*ssa.Phi)
-	if !sok || !eok || sp.Block() != ep.Block() {
-		c.undecided("SCOPE", name, where, "start/end of the @ignore scope are not selected in one place (phi pair): shape not recognised")
+	leaves := c.pairCases(startV, endV, nil, nil, 0)
+	if len(leaves) < 2 {
+		c.undecided("SCOPE", name, where, "start/end of the @ignore scope are not selected in one place (a pair of phis, or the two results of one helper): shape not recognised")
 		return
 	}
 	seen := map[string]bool{}
-	for i := range ep.Edges {
-		g := P.EdgeGuards(ep.Block().Preds[i], ep.Block())
-		s, e := sp.Edges[i], ep.Edges[i]
-		pos := func(pred func(Lit) bool) bool { return hasLit(g, func(l Lit) bool { return l.Pos && pred(l) }) }
-		neg := func(pred func(Lit) bool) bool { return hasLit(g, func(l Lit) bool { return !l.Pos && pred(l) }) }
-		var kind string
-		switch {
-		case pos(beforePackage):
-			kind = "file-level"
-			okE := P.RootsAll(e, func(r ssa.Value) bool {
-				call := P.CallTo(r, "(*go/ast.File).End")
-				return call != nil && strings.HasPrefix(P.Desc(call.Call.Args[0]), fileD)
-			})
-			c.check(isCommentPos(s) && okE, "SCOPE/FILE-LEVEL", name, where, "comment before the package clause: [comment.Pos(), file.End()]", "a comment before the package clause does not get the scope [comment.Pos(), file.End()]: "+short(P.Desc(e)))
-		case neg(beforePackage) && pos(isInlineFound):
-			kind = "inline"
-			cs, ce := inlineCallOf(s), inlineCallOf(e)
-			okS := cs != nil && s.(*ssa.Extract).Index == 0
-			okE := ce != nil && e.(*ssa.Extract).Index == 1
-			c.check(okS && okE && cs == ce, "SCOPE/INLINE", name, where, "trailing comment: the range computed by findInlineNode", "a trailing comment does not get the (start, end) computed by findInlineNode")
-		case neg(beforePackage) && neg(isInlineFound) && neg(nextIsNoPos):
-			kind = "standalone"
-			c.check(isCommentPos(s) && nextCallOf(e) != nil, "SCOPE/STANDALONE", name, where, "stand-alone comment: [comment.Pos(), findNextNodeAfterComment(file, comment.Pos())]", "a stand-alone comment does not get the scope [comment.Pos(), end of the next declaration/node]: "+short(P.Desc(e)))
-		case neg(beforePackage) && neg(isInlineFound) && pos(nextIsNoPos):
-			kind = "standalone-last"
-			c.check(isCommentPos(s) && isCommentEnd(e), "SCOPE/STANDALONE-LAST", name, where, "nothing follows: the comment itself", "a stand-alone comment with nothing after it does not get the scope of the comment itself")
-		default:
-			c.fail("SCOPE/PLACEMENT", fmt.Sprintf("%s#edge%d", name, i), where, "scope selected under conditions that are none of: before the package clause / trailing code (findInlineNode) / stand-alone: "+strings.Join(litKeysShort(g), "; "))
-			continue
-		}
-		seen[kind] = true
+	for i, lf := range leaves {
+		P.PinnedAll(lf.Pins, func() {
+			g := lf.Guards
+			s, e := lf.S, lf.E
+			pos := func(pred func(Lit) bool) bool { return hasLit(g, func(l Lit) bool { return l.Pos && pred(l) }) }
+			neg := func(pred func(Lit) bool) bool { return hasLit(g, func(l Lit) bool { return !l.Pos && pred(l) }) }
+			var kind string
+			switch {
+			case pos(beforePackage):
+				kind = "file-level"
+				okE := P.RootsAll(e, func(r ssa.Value) bool {
+					call := P.CallTo(r, "(*go/ast.File).End")
+					return call != nil && strings.HasPrefix(P.Desc(call.Call.Args[0]), fileD)
+				})
+				c.check(isCommentPos(s) && okE, "SCOPE/FILE-LEVEL", name, where, "comment before the package clause: [comment.Pos(), file.End()]", "a comment before the package clause does not get the scope [comment.Pos(), file.End()]: "+short(P.Desc(e)))
+			case neg(beforePackage) && pos(isInlineFound):
+				kind = "inline"
+				cs, ce := inlineCallOf(s), inlineCallOf(e)
+				okS := cs != nil && s.(*ssa.Extract).Index == 0
+				okE := ce != nil && e.(*ssa.Extract).Index == 1
+				c.check(okS && okE && cs == ce, "SCOPE/INLINE", name, where, "trailing comment: the range computed by findInlineNode", "a trailing comment does not get the (start, end) computed by findInlineNode")
+			case neg(beforePackage) && neg(isInlineFound) && neg(nextIsNoPos):
+				kind = "standalone"
+				c.check(isCommentPos(s) && nextCallOf(e) != nil, "SCOPE/STANDALONE", name, where, "stand-alone comment: [comment.Pos(), findNextNodeAfterComment(file, comment.Pos())]", "a stand-alone comment does not get the scope [comment.Pos(), end of the next declaration/node]: "+short(P.Desc(e)))
+			case neg(beforePackage) && neg(isInlineFound) && pos(nextIsNoPos):
+				kind = "standalone-last"
+				c.check(isCommentPos(s) && isCommentEnd(e), "SCOPE/STANDALONE-LAST", name, where, "nothing follows: the comment itself", "a stand-alone comment with nothing after it does not get the scope of the comment itself")
+			default:
+				c.fail("SCOPE/PLACEMENT", fmt.Sprintf("%s#edge%d", name, i), where, "scope selected under conditions that are none of: before the package clause / trailing code (findInlineNode) / stand-alone: "+strings.Join(litKeysShort(g), "; "))
+				return
+			}
+			seen[kind] = true
+		})
 	}
 	for _, k := range []string{"file-level", "inline", "standalone", "standalone-last"} {
 		if !seen[k] {
@@ -270,31 +328,44 @@ func (c *Ctx) scopeNextNode() {
 func (c *Ctx) checkDeclSearch(fn *ssa.Function, commentPos string) {
 	P := c.P
 	n := 0
-	allInstrs(fn, func(b *ssa.BasicBlock, ins ssa.Instruction) {
-		call, ok := ins.(*ssa.Call)
-		if !ok || P.CallTo(call, "sort.Search") == nil {
-			return
+	// the search may sit in fn itself or in a helper it shares with its sibling (read in fn's calling context)
+	pins, family := P.ContextPins(fn)
+	var fams []*ssa.Function
+	for f := range family {
+		if f.Parent() == nil && (f == fn || !P.isAnchor(f)) {
+			fams = append(fams, f)
 		}
-		n++
-		okLen := strings.HasPrefix(P.Desc(call.Call.Args[0]), "call(builtin len; field(") && strings.Contains(P.Desc(call.Call.Args[0]), "go/ast.File.Decls)")
-		okPred := false
-		for _, r := range P.Resolve(call.Call.Args[1]) {
-			if mc, ok := r.(*ssa.MakeClosure); ok {
-				pf := mc.Fn.(*ssa.Function)
-				allInstrs(pf, func(_ *ssa.BasicBlock, i2 ssa.Instruction) {
-					if ret, ok := i2.(*ssa.Return); ok && len(ret.Results) == 1 {
-						f := P.condFormula(ret.Results[0], 0)
-						for _, l := range literals(f, true) {
-							// commentPos < Decls[i].End()
-							if l.Kind == "lt" && l.Pos && strings.Contains(P.Desc(l.Y), ".End; elem[?](field(") && strings.Contains(P.Desc(l.Y), "go/ast.File.Decls)") {
-								okPred = true
+	}
+	sort.Slice(fams, func(i, j int) bool { return FuncName(fams[i]) < FuncName(fams[j]) })
+	P.PinnedAll(pins, func() {
+		for _, f := range fams {
+			allInstrs(f, func(b *ssa.BasicBlock, ins ssa.Instruction) {
+				call, ok := ins.(*ssa.Call)
+				if !ok || P.CallTo(call, "sort.Search") == nil {
+					return
+				}
+				n++
+				okLen := strings.HasPrefix(P.Desc(call.Call.Args[0]), "call(builtin len; field(") && strings.Contains(P.Desc(call.Call.Args[0]), "go/ast.File.Decls)")
+				okPred := false
+				for _, r := range P.Resolve(call.Call.Args[1]) {
+					if mc, ok := r.(*ssa.MakeClosure); ok {
+						pf := mc.Fn.(*ssa.Function)
+						allInstrs(pf, func(_ *ssa.BasicBlock, i2 ssa.Instruction) {
+							if ret, ok := i2.(*ssa.Return); ok && len(ret.Results) == 1 {
+								f := P.condFormula(ret.Results[0], 0)
+								for _, l := range literals(f, true) {
+									// commentPos < Decls[i].End()
+									if l.Kind == "lt" && l.Pos && strings.Contains(P.Desc(l.Y), ".End; elem[?](field(") && strings.Contains(P.Desc(l.Y), "go/ast.File.Decls)") {
+										okPred = true
+									}
+								}
 							}
-						}
+						})
 					}
-				})
-			}
+				}
+				c.check(okLen && okPred, "SCOPE/DECL-SEARCH", FuncName(fn), P.Pos(call.Pos()), "binary search for the first declaration ending after the comment", "the declaration search is not `first i with file.Decls[i].End() > commentPos` over all declarations")
+			})
 		}
-		c.check(okLen && okPred, "SCOPE/DECL-SEARCH", FuncName(fn), P.Pos(call.Pos()), "binary search for the first declaration ending after the comment", "the declaration search is not `first i with file.Decls[i].End() > commentPos` over all declarations")
 	})
 	c.floor("declaration searches in "+FuncName(fn), n, 1)
 }
